@@ -23,7 +23,7 @@ require (
 	verifsim/simsync v0.0.0
 )
 
-replace verifsim/simsync => /verif/sim/simsync
+replace verifsim/simsync => ${VERIF_SIM:-/verif/sim}/simsync
 
 replace gitee.com/xuesongtao/protoc-go-valid => $S/repo
 EOM
